@@ -281,7 +281,7 @@ def guards_of(node, stop=None):
     out = []
     child = node
     p = parent(node)
-    while p is not None and p is not stop:
+    while p is not None:
         if isinstance(p, (ast.FunctionDef, ast.AsyncFunctionDef, ast.Lambda, ast.ClassDef)) and child is not node:
             break
         for field in ("body", "orelse", "finalbody"):
@@ -293,10 +293,14 @@ def guards_of(node, stop=None):
                         out.append((prev.test, False))
                     elif isinstance(prev, ast.If) and prev.orelse and terminates(prev.orelse) and not terminates(prev.body):
                         out.append((prev.test, True))
-                if isinstance(p, ast.If):
+                if p is stop:
+                    pass  # early exits inside the stop block count; its own test does not
+                elif isinstance(p, ast.If):
                     out.append((p.test, field == "body"))
                 elif isinstance(p, ast.While) and field == "body":
                     out.append((p.test, True))
+        if p is stop:
+            break
         if isinstance(p, ast.IfExp):
             if child is p.body:
                 out.append((p.test, True))
@@ -312,6 +316,25 @@ def guards_of(node, stop=None):
         p = parent(p)
     out.reverse()
     return out
+
+
+_POSITIVE = {ast.NotEq: ast.Eq, ast.IsNot: ast.Is, ast.NotIn: ast.In}
+
+
+def canon_test(test, pol=True):
+    """(text, polarity) of a test in canonical form: leading `not`s stripped, `!=` / `is not` / `not in` written as the
+    positive comparison with the polarity flipped."""
+    while isinstance(test, ast.UnaryOp) and isinstance(test.op, ast.Not):
+        test, pol = test.operand, not pol
+    if isinstance(test, ast.Compare) and len(test.ops) == 1 and type(test.ops[0]) in _POSITIVE:
+        test = ast.Compare(left=test.left, ops=[_POSITIVE[type(test.ops[0])]()], comparators=test.comparators)
+        pol = not pol
+    return U(test), pol
+
+
+def canon_guards(node, stop=None):
+    """guards_of in canonical form, as a set of (text, polarity)."""
+    return {canon_test(t, p) for t, p in guards_of(node, stop)}
 
 
 def in_handler(node):
